@@ -510,6 +510,72 @@ theorem catJ_at (rs : List (Res ℝ)) (i o c : Nat) (hi : i < rs.length) (ho : o
   unfold catJ vcatM
   rw [locate_offset _ i o (by simpa using hi) (by rw [rows_getD rs i hi]; exact ho)]
 
+/-! ## documented weights for any number of residuals -/
+
+/-- both documented cases in one statement (`d ≥ 1`) -/
+theorem wblocks_documented (pre suf : List Nat) (d : Nat) (hd : 0 < d) (hsuf : 0 < prod suf) (wdata : Nat → ℝ) :
+    ∃ B, wblocks (pre ++ suf ++ [d]) (suf ++ [d, d]) wdata = some B ∧
+      B.cnt = prod suf * prod pre ∧ B.h = d ∧ B.w = d ∧ B.nb = prod suf ∧
+      B.blk = fun t a b => wdata ((t * d + a) * d + b) := by
+  by_cases h1 : d = 1
+  · subst h1; exact wblocks_documented_eq1 pre suf hsuf wdata
+  · exact wblocks_documented_ne1 pre suf d (by omega) hsuf wdata
+
+/-- a documented (residual shape, weight shape) pair -/
+structure DocPair where
+  pre : List Nat
+  suf : List Nat
+  d : Nat
+
+def DocPair.rshape (p : DocPair) : List Nat := p.pre ++ p.suf ++ [p.d]
+def DocPair.wshape (p : DocPair) : List Nat := p.suf ++ [p.d, p.d]
+def DocPair.valid (p : DocPair) : Prop := 0 < p.d ∧ 0 < prod p.suf
+/-- `r.numel()` -/
+def DocPair.numel (p : DocPair) : Nat := prod p.suf * prod p.pre * p.d
+
+theorem allBlocks_documented (ps : List DocPair) (hv : ∀ p ∈ ps, p.valid) (wd : List (Nat → ℝ)) (hl : wd.length = ps.length) :
+    ∃ bs, allBlocks (ps.map (·.rshape)) (List.zipWith (fun p w => (p.wshape, w)) ps wd) = some bs ∧
+      bs.length = ps.length ∧
+      (∀ B ∈ bs, B.h = B.w ∧ 0 < B.h) ∧
+      bs.map (·.rows) = ps.map (·.numel) ∧ bs.map (·.cols) = ps.map (·.numel) := by
+  induction ps generalizing wd with
+  | nil =>
+    have : wd = [] := List.length_eq_zero_iff.mp hl
+    subst this
+    exact ⟨[], by simp [allBlocks], rfl, by simp, rfl, rfl⟩
+  | cons p ps ih =>
+    cases wd with
+    | nil => simp at hl
+    | cons w wd =>
+      simp only [List.length_cons, Nat.add_right_cancel_iff] at hl
+      obtain ⟨bs, hbs, hlen, hsq, hr, hc⟩ := ih (fun q hq => hv q (by simp [hq])) wd hl
+      have hp := hv p (by simp)
+      obtain ⟨B, hB, hcnt, hh, hw, hnb, hblk⟩ := wblocks_documented p.pre p.suf p.d hp.1 hp.2 w
+      refine ⟨B :: bs, ?_, by simp [hlen], ?_, ?_, ?_⟩
+      · simp only [List.map_cons, List.zipWith_cons_cons, allBlocks]
+        have : wblocks p.rshape p.wshape w = some B := hB
+        rw [this, hbs]
+      · intro B' hB'
+        rcases List.mem_cons.mp hB' with rfl | h'
+        · exact ⟨by rw [hh, hw], by rw [hh]; exact hp.1⟩
+        · exact hsq B' h'
+      · rw [List.map_cons, List.map_cons, hr]; simp only [WBlocks.rows, hcnt, hh, DocPair.numel]
+      · rw [List.map_cons, List.map_cons, hc]; simp only [WBlocks.cols, hcnt, hw, DocPair.numel]
+
+
+/-- `Σ_{c < total ns} F c = Σ_j Σ_{o < ns[j]} F (offset ns j + o)` -/
+theorem sum_segments (ns : List Nat) (F : Nat → ℝ) :
+    ∑ c ∈ range (total ns), F c = segSum ns fun j o => F (offset ns j + o) := by
+  induction ns generalizing F with
+  | nil => simp [total, segSum]
+  | cons n ns ih =>
+    rw [total, sum_range_add, segSum]
+    congr 1
+    · apply sum_congr rfl; intro c _; simp [offset]
+    · rw [ih (fun x => F (n + x))]
+      congr 1; funext j o; simp [offset, Nat.add_assoc]
+
+
 /-! ## bridge to Mathlib matrices -/
 
 open Matrix
